@@ -89,6 +89,12 @@ def run_c07(res):
     for i in range(n):
         shape, P = par.gen_project(r)
         j = r.choice([1, 2, 3, 4, 8])
+        if i % 4 == 1:
+            # a diamond on a shared, slow, checksummed base at -j >= 2
+            shape, P = par.gen_project(r, "diamond")
+            b = P["base"]
+            P["base"] = (b[0], r.randint(120, 250), False, False, True)
+            j = r.choice([2, 3, 4])
         sh = r.random() < 0.4
         dup = r.random() < 0.3
         st = r.random() < 0.5
@@ -237,8 +243,39 @@ def run_c12(res):
                 res.known("parallel_multi_entry", "F9 a dependency cycle entered from two of its members by jobs started in parallel (e.g. `redo -j2 a b` with a <-> b) hangs instead of reporting 208")
             else:
                 viol.append({"case": case, "what": bad, "stderr": rr["err"][-500:], "snapshot": rr["hung"]})
+    # ---- late entries: the cycle is registered first (low file ids), then many new
+    # prefix targets (growing file ids, one to three digits) enter it one at a time
+    late = {"entries": 0, "bad": 0}
+    pp = par.ParProject(bindir, {}, "c12late")
+    try:
+        W = par.WORK
+        open(os.path.join(pp.root, "x.do"), "w").write(W + "redo-ifchange y\necho x\n")
+        open(os.path.join(pp.root, "y.do"), "w").write(W + "redo-ifchange x\necho y\n")
+        pp.run(["redo", "x"], jobs=1, log=False, timeout=15)
+        n_late = 30 if t == "quick" else 120
+        for i in range(n_late):
+            nm = "e%d.p" % i
+            open(os.path.join(pp.root, nm + ".do"), "w").write(W + "redo-ifchange %s\necho %s\n" % (r.choice(["x", "y"]), nm))
+            j = r.choice([1, 1, 3])
+            rr = pp.run(["redo", nm], jobs=j, log=False, timeout=12)
+            late["entries"] += 1
+            bad = None
+            if rr["hung"]:
+                bad = "hang (no termination within 12 s)"
+            elif rr["rc"] == 0:
+                bad = "a cyclic build exited 0"
+            elif "cyclic" not in rr["err"].lower():
+                bad = "no cyclic-dependency diagnosis"
+            if bad:
+                late["bad"] += 1
+                viol.append({"case": {"scenario": "cycle x <-> y registered first; then entry %s (the %d-th new target, -j%d)" % (nm, i + 1, j)},
+                             "what": bad, "stderr": rr["err"][-400:], "snapshot": rr["hung"]})
+                if late["bad"] >= 2:
+                    break
+    finally:
+        pp.close()
     finish(res, "C12", proof, {
         "evaluations": n, "distinct_nontrivial": n,
         "rule": "projects with a dependency cycle of length 1..4 behind an acyclic prefix of length 0..2 with acyclic siblings; entry = the prefix top, a cycle member, two cycle members, or the top plus a sibling; -j1..4; every run must terminate within 15 s with a non-zero status and a cyclic-dependency diagnosis; non-trivial = every run",
-        "samples": samples, "input_distribution": dist, "known_finding_hits": known_hits}, viol)
+        "samples": samples, "input_distribution": dist, "known_finding_hits": known_hits, "late_entries": late}, viol)
     res.assumptions = ["the serial clause is also covered by the serial model (profile 'cycles' in C01..C05 runs)"]
